@@ -335,6 +335,41 @@ pub fn env_child(mode: &str, input: Vec<u8>) -> String {
         Some(m) => format!("PANIC {}", m.replace('\n', " ")),
         None => format!("OK opened={} verify={:?}", p.opened, p.verify_ok),
     };
+    if mode == "threads" {
+        // one opened object shared by four threads that verify it at the
+        // same time (and read its metadata): a reader is a function of the
+        // bytes, whoever else looks at them
+        let f = match fst::raw::Fst::new(&input[..]) {
+            Ok(f) => f,
+            Err(_) => return "OK opened=false verify=None".to_string(),
+        };
+        let barrier = std::sync::Barrier::new(4);
+        let results: Vec<Result<bool, String>> = std::thread::scope(|s| {
+            let hs: Vec<_> = (0..4)
+                .map(|_| {
+                    s.spawn(|| {
+                        barrier.wait();
+                        catch_unwind(AssertUnwindSafe(|| {
+                            let ok = f.verify().is_ok();
+                            let _ = (f.len(), f.size(), f.fst_type());
+                            ok
+                        }))
+                        .map_err(panic_msg)
+                    })
+                })
+                .collect();
+            hs.into_iter().map(|h| h.join().unwrap_or_else(|_| Err("thread died".to_string()))).collect()
+        });
+        for r in &results {
+            if let Err(m) = r {
+                return format!("PANIC {}", m.replace('\n', " "));
+            }
+        }
+        if results.iter().any(|r| r != &results[0]) {
+            return "PANIC verify() gave different answers to threads sharing one Fst".to_string();
+        }
+        return format!("OK opened=true verify={:?}", results[0]);
+    }
     if mode == "stack" {
         let h = std::thread::Builder::new().stack_size(256 << 10).spawn(move || probe(&input)).expect("harness: spawn");
         return match h.join() {
@@ -362,7 +397,7 @@ pub fn env_child(mode: &str, input: Vec<u8>) -> String {
 fn env_probe(bytes: &[u8]) -> Option<String> {
     use std::io::{Read, Write};
     use std::process::{Command, Stdio};
-    for mode in ["stack", "starved"] {
+    for mode in ["stack", "starved", "threads"] {
         let exe = std::env::current_exe().expect("harness: current_exe");
         let mut child = Command::new(exe)
             .args(["c20-env", mode])
@@ -377,7 +412,11 @@ fn env_probe(bytes: &[u8]) -> Option<String> {
         let mut out = String::new();
         let _ = child.stdout.take().expect("harness: stdout").read_to_string(&mut out);
         let st = child.wait().expect("harness: wait");
-        let what = if mode == "stack" { "on a thread with a 256 KiB stack" } else { "in a process that cannot grow its address space (no new thread, no large buffer)" };
+        let what = match mode {
+            "stack" => "on a thread with a 256 KiB stack",
+            "starved" => "in a process that cannot grow its address space (no new thread, no large buffer)",
+            _ => "on one Fst shared by four threads verifying at the same time",
+        };
         if !st.success() {
             return Some(format!("the process died ({}) during open + accessors + verify {}", st, what));
         }
